@@ -44,6 +44,8 @@ class RuleConfiguration:
     except_present: bool = False
     import_: bool | None = None
     rule_object_anything: bool = False
+    # rule subjects of an 'anything' rule that were dropped because another rule subject is their parent module
+    modules_removed_by_alias_conversion: Sequence[ModuleFilter] = ()
 
 
 class Rule(
@@ -208,9 +210,24 @@ class Rule(
         self._assert_anything_only_used_with_should_not()
         self._configuration = self._convert_aliases(self._configuration)
         self._assert_required_configuration_present()
+        self._assert_modules_removed_by_alias_conversion_exist(evaluable)
 
         matcher = self._prepare_rule_matcher()
         matcher.match(evaluable)
+
+    def _assert_modules_removed_by_alias_conversion_exist(
+        self, evaluable: EvaluableArchitecture
+    ) -> None:
+        """Rule subjects that were dropped in favour of their parent module are never looked up in the architecture,
+        so a module that does not exist would otherwise go unnoticed."""
+        for module in self._configuration.modules_removed_by_alias_conversion:
+            if (
+                not module.identifier_is_regex
+                and module.identifier not in evaluable.modules
+            ):
+                raise KeyError(
+                    f"Module {module.identifier} does not exist in the architecture."
+                )
 
     def _prepare_rule_matcher(self) -> RuleMatcher:
         module_requirement = ModuleRequirement(
@@ -324,12 +341,20 @@ class Rule(
             )
         )
 
+        removed_modules = tuple(
+            module
+            for module in configuration.modules_to_check or []
+            if module
+            not in (modules_to_check_without_parent_and_submodule_combinations or [])
+        )
+
         return replace(
             configuration,
             rule_object_anything=False,
             modules_to_check=modules_to_check_without_parent_and_submodule_combinations,
             modules_to_check_against=modules_to_check_without_parent_and_submodule_combinations,
             except_present=True,
+            modules_removed_by_alias_conversion=removed_modules,
         )
 
     @classmethod
